@@ -38,18 +38,18 @@ CTX = [("int", dict(type="int", size=None, nullable=True, default=None)),
        ("int DEFAULT 1", dict(type="int", size=None, nullable=True, default=1)),
        ("int PRIMARY KEY", dict(type="int", size=None, nullable=False, default=None))]
 
-POS = ["S", "T", "C1", "C2", "C3", "K1", "K2", "K3", "RS", "RT", "RC", "IX", "K4", "Q", "TY", "D"]
+POS = ["S", "T", "C1", "C2", "C3", "K1", "K2", "K3", "RS", "RT", "RC", "IX", "K4", "Q", "TY", "D", "IK"]
 BASE = {"S": "sc", "T": "tb", "C1": "ca", "C2": "cb", "C3": "cc", "K1": "ka", "K2": "kb", "K3": "kc", "RS": "rs", "RT": "rt", "RC": "rc",
-        "IX": "ix", "K4": "kd", "Q": "sq", "TY": "ty", "D": "dm"}
-FORMS = ["lower", "Mixed", "UPPER", "x_1", "dq", "bt", "br", "dq_us", "br_us", "dq_sp", "dq_nest", "bt_dbl", "br_dbl", "bt_dash", "arr", "Arr", "ARR", "dq_dot", "kw"]
+        "IX": "ix", "K4": "kd", "Q": "sq", "TY": "ty", "D": "dm", "IK": "ik"}
+FORMS = ["lower", "Mixed", "UPPER", "x_1", "dq", "bt", "br", "dq_us", "br_us", "dq_sp", "dq_nest", "bt_dbl", "br_dbl", "bt_dash", "arr", "Arr", "ARR", "dq_dot", "kw", "hash", "hash2"]
 # a keyword-shaped plain name per naming position (after a dot inside parentheses the word must still be a name)
 KWFORM = {"C1": "order", "C2": "key2", "C3": "set", "K1": "check1", "K2": "unique1", "K3": "foreign1", "RT": "comment",
-          "RC": "order", "IX": "index1", "K4": "default1", "Q": "cache", "TY": "tag", "D": "map"}
+          "RC": "order", "IX": "index1", "K4": "default1", "Q": "cache", "TY": "tag", "D": "map", "IK": "key1"}
 # words the grammar actions compare by value although they are not tokens: legal names in any spelling but the exact upper-case one
 PSEUDO_KW = ["ASC", "DESC"]
 LINE_WORDS = {"CREATE", "ALTER", "DROP", "SET", "GO", "USE", "INSERT", "GRANT", "DELETE"}
 SCRIPT = ("CREATE TABLE {S}.{T} ({C1} int, {C2} varchar(5), {C3} int, CONSTRAINT {K1} PRIMARY KEY ({C1}, {C2}), "
-          "CONSTRAINT {K2} UNIQUE ({C2}, {C3}), CONSTRAINT {K3} FOREIGN KEY ({C3}) REFERENCES {RS}.{RT} ({RC}));\n"
+          "CONSTRAINT {K2} UNIQUE ({C2}, {C3}), CONSTRAINT {K3} FOREIGN KEY ({C3}) REFERENCES {RS}.{RT} ({RC}), KEY {IK} ({C2}));\n"
           "CREATE INDEX {IX} ON {S}.{T} ({C1}, {C3});\n"
           "ALTER TABLE {S}.{T} ADD CONSTRAINT {K4} UNIQUE ({C1});\n"
           "CREATE SEQUENCE {S}.{Q} START 1;\n"
@@ -58,14 +58,15 @@ SCRIPT = ("CREATE TABLE {S}.{T} ({C1} int, {C2} varchar(5), {C3} int, CONSTRAINT
 # explicit paths of every naming position in the plain-name result (validated once per worker)
 PATHS = {
     "S": [(0, "schema"), (1, "schema"), (2, "schema"), (3, "schema")], "T": [(0, "table_name")],
-    "C1": [(0, "columns", 0, "name"), (0, "primary_key", 0), (0, "constraints", "primary_keys", 0, "columns", 0), (0, "index", 0, "columns", 0),
-           (0, "index", 0, "detailed_columns", 0, "name"), (0, "alter", "uniques", 0, "columns", 0)],
-    "C2": [(0, "columns", 1, "name"), (0, "primary_key", 1), (0, "constraints", "primary_keys", 0, "columns", 1), (0, "constraints", "uniques", 0, "columns", 0)],
-    "C3": [(0, "columns", 2, "name"), (0, "constraints", "uniques", 0, "columns", 1), (0, "constraints", "references", 0, "name"), (0, "index", 0, "columns", 1)],
+    "C1": [(0, "columns", 0, "name"), (0, "primary_key", 0), (0, "constraints", "primary_keys", 0, "columns", 0), (0, "index", 1, "columns", 0),
+           (0, "index", 1, "detailed_columns", 0, "name"), (0, "alter", "uniques", 0, "columns", 0)],
+    "C2": [(0, "columns", 1, "name"), (0, "primary_key", 1), (0, "constraints", "primary_keys", 0, "columns", 1), (0, "constraints", "uniques", 0, "columns", 0),
+           (0, "index", 0, "columns", 0), (0, "index", 0, "detailed_columns", 0, "name")],
+    "C3": [(0, "columns", 2, "name"), (0, "constraints", "uniques", 0, "columns", 1), (0, "constraints", "references", 0, "name"), (0, "index", 1, "columns", 1)],
     "K1": [(0, "constraints", "primary_keys", 0, "constraint_name")], "K2": [(0, "constraints", "uniques", 0, "constraint_name")],
     "K3": [(0, "constraints", "references", 0, "constraint_name")], "RS": [(0, "constraints", "references", 0, "schema")],
     "RT": [(0, "constraints", "references", 0, "table")], "RC": [(0, "constraints", "references", 0, "columns", 0)],
-    "IX": [(0, "index", 0, "index_name")], "K4": [(0, "alter", "uniques", 0, "constraint_name")], "Q": [(1, "sequence_name")],
+    "IX": [(0, "index", 1, "index_name")], "IK": [(0, "index", 0, "index_name")], "K4": [(0, "alter", "uniques", 0, "constraint_name")], "Q": [(1, "sequence_name")],
     "TY": [(2, "type_name")], "D": [(3, "domain_name")],
 }
 
@@ -91,7 +92,7 @@ def form(name, f):
             # a delimited name that contains its own (doubled) delimiter, and one with a dash
             "bt_dbl": "`%s``%s`" % (name[0], name[1:]), "br_dbl": "[%s]]%s]" % (name[0], name[1:]), "bt_dash": "`%s-%s`" % (name[0], name[1:]),
             # plain names that begin with the word ARRAY (a type keyword the lexer tests by prefix), and a quoted name containing a dot
-            "kw": KWFORM.get(_POS_OF.get(name), name), "arr": "array_" + name, "ARR": "ARRAY_" + name.upper(), "Arr": "Arrays" + name.capitalize(), "dq_dot": '"%s.%s"' % (name, name)}[f]
+            "kw": KWFORM.get(_POS_OF.get(name), name), "hash": "#" + name.capitalize(), "hash2": "##" + name, "arr": "array_" + name, "ARR": "ARRAY_" + name.upper(), "Arr": "Arrays" + name.capitalize(), "dq_dot": '"%s.%s"' % (name, name)}[f]
 
 
 def strip1(s):
